@@ -243,6 +243,8 @@ pub enum Fault {
     ReadError { at: usize },
     /// The k-th write to this client (and all later ones) fails.
     WriteError { kth: usize },
+    /// The k-th write to this client fails once (nothing is written); later writes would succeed.
+    WriteGlitch { kth: usize },
     /// Call `at` names a method the service does not know.
     UnknownMethod { at: usize },
     /// Call `at` has parameters of the wrong type.
@@ -325,7 +327,7 @@ pub fn call_frame(cid: u32, seq: u32, c: &CallSpec) -> Vec<u8> {
 /// 1 = another member order (the hash picks the permutation); 2 = blanks and line breaks between
 /// tokens (the parameters pretty-printed); 4 = flags that are not set are written out as `false`;
 /// 8 = an extra member the receiver does not know, with nested content; 16 = blanks around the
-/// whole document. Member names are never escaped: zlink's `Call` decoder documents itself as
+/// whole document; 32 = the call carries `"upgrade": true`. Member names are never escaped: zlink's `Call` decoder documents itself as
 /// reading keys zero-copy, which no JSON decoder can do for an escaped name.
 fn spell_call(v: &Value, style: u32, h: u64) -> Vec<u8> {
     let sp = if style & 2 != 0 { " " } else { "" };
@@ -334,6 +336,9 @@ fn spell_call(v: &Value, style: u32, h: u64) -> Vec<u8> {
     for flag in ["oneway", "more", "upgrade"] {
         match v.get(flag) {
             Some(b) => members.push(format!("\"{flag}\":{sp}{b}")),
+            // the third flag of the protocol: this service never upgrades, the server treats the
+            // call like any other
+            None if flag == "upgrade" && style & 32 != 0 => members.push(format!("\"upgrade\":{sp}true")),
             None if style & 4 != 0 => members.push(format!("\"{flag}\":{sp}false")),
             None => {}
         }
@@ -447,6 +452,12 @@ pub fn install_client(world: &World, spec: &ClientSpec) -> ConnInfo {
         if let Fault::WriteError { kth } = f {
             w.pipes[s2c].write_err_from = Some(*kth);
             write_fault = Some(*kth);
+        }
+        if let Fault::WriteGlitch { kth } = f {
+            if write_fault.is_none() {
+                w.pipes[s2c].write_err_from = Some(*kth);
+                w.pipes[s2c].write_err_until = Some(*kth + 1);
+            }
         }
     }
     for (i, c) in spec.calls.iter().enumerate() {
